@@ -91,7 +91,7 @@ Definition arg_int (e : ienv) (s : isource) : option N :=
 
 Definition bytes_of_seq (v : val) : option (list N) :=
   match v with
-  | VSeq l => omap (fun x => match x with VInt n => Some n | _ => None end) l
+  | VSeq l => all_some (fun x => match x with VInt n => Some n | _ => None end) l
   | _ => None
   end.
 
